@@ -204,7 +204,7 @@ def plan(tier, verif_seed):
             yield {"overtake": {"adapter": "plain", "k": kk, "second": second}}
     for i in range(len(LONG_CASES)):
         yield {"directed_long": i}
-    nh = 80 if tier == "quick" else 10**9
+    nh = 60 if tier == "quick" else 10**9
     for h in range(nh):
         hseed = derive_seed(verif_seed, PROPERTY, "history", h)
         long = tier == "thorough" and h % 25 == 24
@@ -224,6 +224,9 @@ def plan(tier, verif_seed):
             # one double-crash variant per crash point: the server is lost again right after the
             # restart (k2 = k) or after one more request (k2 = k+1)
             yield {"h": h, "hseed": hseed, "k": k, "k2": k + ((h + k) % 2), "fault": None, "stray": None, "long": long}
+            # one variant per crash point in which the new server's own background work (if it starts any) is scheduled late:
+            # after the first / second request that reaches it
+            yield {"h": h, "hseed": hseed, "k": k, "fault": None, "stray": None, "long": long, "bg": 1 + (h + k) % 2}
             # one stray-file variant per crash point (file name rotates)
             yield {"h": h, "hseed": hseed, "k": k, "fault": None, "stray": STRAYS[(h + k) % len(STRAYS)], "long": long}
 
@@ -235,6 +238,8 @@ def generate(spec):
         return long_case(spec["directed_long"])
     case = gen_history(spec["hseed"], spec.get("long", False))
     case["crash"] = {"k": spec["k"], "fault": spec["fault"], "stray": spec["stray"], "k2": spec.get("k2")}
+    if spec.get("bg") is not None:
+        case["crash"]["bg"] = spec["bg"]
     if spec.get("child"):
         case["child"] = True
     return case
@@ -262,10 +267,19 @@ def _do(w, ids, o, res=None):
         r, _, _ = w.stream("/%s/stream-steps" % iid, {"settings": o["settings"]})
         return r
     if op == "stream_cut":
-        r, cut, _ = w.stream("/%s/stream-steps" % iid, None if o["settings"] is None else {"settings": o["settings"]}, chunks=o["chunks"])
+        r, cut, parts = w.stream("/%s/stream-steps" % iid, None if o["settings"] is None else {"settings": o["settings"]}, chunks=o["chunks"])
         if cut and res is not None:
             res.probe("stream_abandoned_by_client")
-        return r
+        # what the client has read is half a JSON document: compare it chunk by chunk (key order inside a step is no difference)
+        import json
+        from worlds.server_world import Resp
+        canon_parts = []
+        for ch in parts:
+            try:
+                canon_parts.append(json.loads(ch))
+            except Exception:
+                canon_parts.append(ch)
+        return Resp(r.status, json.dumps(canon_parts, sort_keys=True))
     if op == "results":
         return w.get("/%s/session-results" % iid)
     if op == "flat":
@@ -302,6 +316,8 @@ def _run(case, crash, log, res):
                 return False        # the process cannot be lost "between" two requests that are in flight together
             if k2_ is not None and k2_ == n:
                 return False
+            if crash and crash.get("bg") is not None and n > k:
+                return False        # the restarted incarnation already lives under the background scheduler
             if ops[n]["inst"] == o["inst"] and (not crash or n + 1 > k):
                 # which of two concurrent run-steps of ONE instance gets which step is the schedule's choice: such a pair
                 # is only run before the crash, where responses are not compared (what must hold is that whatever was
@@ -395,11 +411,17 @@ def _run(case, crash, log, res):
                     except Exception:
                         info["damaged"].add(j)
             info["ids"] = dict(ids)
+            # whatever the new server starts in the background (a restore thread, a timer ...) is scheduled by the driver:
+            # it runs to completion before the first request (bg = 0) or only after the bg-th request has been answered
+            bg = crash.get("bg")
             try:
-                w.boot()
+                w.boot(background=bg is not None)
             except Exception as e:      # start-up must never fail
                 info["boot_error"] = "%s: %s" % (type(e).__name__, e)
                 return out, info
+            served_after = [0]
+            if bg == 0:
+                w.settle()
             if crash.get("stray"):
                 res.probe("startup_with_stray_file")
             k2 = crash.get("k2")
@@ -444,6 +466,9 @@ def _run(case, crash, log, res):
                 r = _do(w, ids, o, res)
                 out[n] = (r.status, r.body if r.body is not None else r.text)
                 log.add("req", n, o["op"], r.status)
+                served_after[0] += 1
+                if bg is not None and bg > 0 and served_after[0] == bg:
+                    w.settle()
                 if k2 is not None and n == k2:
                     if not second_crash():
                         return out, info
